@@ -36,6 +36,7 @@ package hashmap
 //@   ensures [found_is_the_first_equal_key_of_the_selected_slot] result1 ==> (exists j int :: 0 <= j && j < len(em.mapArray[slot(h, em.capacity)]) && heq(h, em.mapArray[slot(h, em.capacity)][j].Key) && result0 == em.mapArray[slot(h, em.capacity)][j].Value && (forall k int :: {em.mapArray[slot(h, em.capacity)][k]} 0 <= k && k < j ==> !heq(h, em.mapArray[slot(h, em.capacity)][k].Key)))
 //@   ensures [not_found_means_no_equal_key_in_the_selected_slot] !result1 ==> (forall k int :: {em.mapArray[slot(h, em.capacity)][k]} 0 <= k && k < len(em.mapArray[slot(h, em.capacity)]) ==> !heq(h, em.mapArray[slot(h, em.capacity)][k].Key))
 //@   loop 1
+//@     complete [all_iterations_no_early_exit]
 //@     invariant [no_equal_key_so_far] forall k int :: {em.mapArray[index][k]} 0 <= k && k <= rangeindex ==> !heq(h, em.mapArray[index][k].Key)
 //@     invariant [still_the_selected_slot] index == slot(h, em.capacity) && HMok(em) && ghost(lock_RLock) - ghost(lock_RUnlock) == old(ghost(lock_RLock) - ghost(lock_RUnlock)) + 1
 
@@ -53,12 +54,14 @@ package hashmap
 //@   ensures [every_entry_in_the_slot_of_its_hash_code] HMplaced(em)
 //@   ensures [doubles_exactly_when_the_load_is_reached] em.capacity == (real(em.total) >= real(old(em.capacity)) * em.loadfactor ? 2 * old(em.capacity) : old(em.capacity))
 //@   loop 1
+//@     complete [all_iterations_no_early_exit]
 //@     assigns elems(newmap), elems("*KeyValue")
 //@     invariant [new_table_shape] len(newmap) == newcapacity && newcapacity == 2 * em.capacity && em.capacity >= 1 && fresh_arr(newmap) && HMok(em) && HMplaced(em)
 //@     invariant [old_table_untouched] OLDSAME(em)
 //@     invariant [new_entries_are_live_pairs_in_their_slots] NEWOK(newmap, newcapacity)
 //@     invariant [new_buckets_in_fresh_storage] NEWFRESH(newmap)
 //@   loop 2
+//@     complete [all_iterations_no_early_exit]
 //@     assigns elems(newmap), elems("*KeyValue")
 //@     invariant [new_table_shape] len(newmap) == newcapacity && newcapacity == 2 * em.capacity && em.capacity >= 1 && fresh_arr(newmap) && HMok(em) && HMplaced(em) && 0 <= rangeindex1 + 1 && rangeindex1 + 1 < len(em.mapArray) && b == em.mapArray[rangeindex1 + 1]
 //@     invariant [old_table_untouched] OLDSAME(em)
@@ -79,6 +82,7 @@ package hashmap
 //@   ensures [still_well_formed] HMok(em) && HMplaced(em)
 //@   ensures [every_pair_holds_its_old_value_or_the_one_just_put] forall kv *KeyValue :: {kv.Value} allocated(kv) ==> kv.Value == value || (!fresh(kv) && kv.Value == old(kv.Value))
 //@   loop 1
+//@     complete [all_iterations_no_early_exit]
 //@     invariant [no_equal_key_so_far] forall k int :: {em.mapArray[index][k]} 0 <= k && k <= rangeindex ==> !heq(h, em.mapArray[index][k].Key)
 //@     invariant [nothing_written_yet] index == slot(h, em.capacity) && HMok(em) && HMplaced(em) && em.total == old(em.total) && em.mapArray == old(em.mapArray) && em.capacity == old(em.capacity) && ghost(lock_Lock) - ghost(lock_Unlock) == old(ghost(lock_Lock) - ghost(lock_Unlock)) + 1 && (forall i int :: {em.mapArray[i]} 0 <= i && i < len(em.mapArray) ==> em.mapArray[i] == old(em.mapArray[i])) && (forall i int, j int :: {em.mapArray[i][j]} 0 <= i && i < len(em.mapArray) && 0 <= j && j < len(em.mapArray[i]) ==> em.mapArray[i][j] == old(em.mapArray[i][j]) && em.mapArray[i][j].Key == old(em.mapArray[i][j].Key))
 
